@@ -37,7 +37,7 @@ const (
 type config struct {
 	ctrl      string // "none" | "zero" | "0.0.0.0:60000" | "192.168.1.100:0" | "192.168.1.100:60000" | "10.0.0.7:54321"
 	protocol  string
-	bind      string // "" | "0.0.0.0:0" | "192.168.1.2:0" | "192.168.1.2:54321"
+	bind      string // "" | "0.0.0.0:0" | "192.168.1.2:0" | "192.168.1.2:54321" | "192.168.1.2:60000" | "192.168.1.2:60005"
 	broadcast string // "" | "192.168.1.255:60000" | "192.168.1.255:60005"
 	bystander bool
 	newDevice bool
@@ -332,7 +332,9 @@ func main() {
 	scenarios := []e1.Scenario{}
 	for _, ctrl := range []string{"none", "zero", "0.0.0.0:60000", "192.168.1.100:0", "192.168.1.100:60000", "10.0.0.7:54321"} {
 		for _, proto := range []string{"", "udp", "tcp", "TCP", "any", "x"} {
-			for _, bind := range []string{"", "0.0.0.0:0", "192.168.1.2:0", "192.168.1.2:54321"} {
+			// the last two: the fixed bind port coincides with the port of the (default / configured)
+			// broadcast address, and 54321 with the port of the controller at 10.0.0.7:54321
+			for _, bind := range []string{"", "0.0.0.0:0", "192.168.1.2:0", "192.168.1.2:54321", "192.168.1.2:60000", "192.168.1.2:60005"} {
 				for _, bcast := range []string{"", "192.168.1.255:60000", "192.168.1.255:60005"} {
 					for _, by := range []bool{false, true} {
 						for _, nd := range []bool{false, true} {
@@ -387,7 +389,7 @@ func main() {
 	if r.Worker == "" && r.Replay == "" {
 		e1.Conformance(r)
 	}
-	r.Rule("full cross product of 6 target-controller configurations x 6 protocol strings x 4 bind addresses x 3 broadcast settings x bystander controller x constructor (1728 configurations), each x 32 operations x controllers {silent, answering} as environment choices; plus every ordered pair (thorough: also every ordered triple over the 12 UDP ones) of 24 reduced configurations {unconfigured, configured} x {udp, tcp} x {no bind, two different local addresses on the same fixed port} x {default, configured broadcast address} as clients used one after the other in one process, each call judged against its own client's configuration; and the 16 fixed-bind-port ones with the bind port already held (UDP and TCP port space) by other sockets of the host (a call may fail without sending, but nothing may leave from another source); distinct = distinct (transport, destination, answered) labels")
+	r.Rule("full cross product of 6 target-controller configurations x 6 protocol strings x 6 bind addresses (two of them with the fixed port equal to the port of the default / configured broadcast address, one equal to a controller's port) x 3 broadcast settings x bystander controller x constructor (2592 configurations), each x 32 operations x controllers {silent, answering} as environment choices; plus every ordered pair (thorough: also every ordered triple over the 12 UDP ones) of 24 reduced configurations {unconfigured, configured} x {udp, tcp} x {no bind, two different local addresses on the same fixed port} x {default, configured broadcast address} as clients used one after the other in one process, each call judged against its own client's configuration; and the 16 fixed-bind-port ones with the bind port already held (UDP and TCP port space) by other sockets of the host (a call may fail without sending, but nothing may leave from another source); distinct = distinct (transport, destination, answered) labels")
 	r.Assume("reference routing function route() in this file, written from the property statement; protocol strings other than exactly \"tcp\" mean UDP")
 	r.Assume("simulated network: source address = bind address, ephemeral port when the bind port is 0")
 	r.Finish()
